@@ -1187,6 +1187,15 @@ func (t *tr) evAppend(c *ast.CallExpr) Term {
 	t.qcount++
 	i := Term{S: fmt.Sprintf("i$a%d", t.qcount), Sort: SInt}
 	t.assume(forallT([]Term{i}, implies(and(le(intLit(0), i), lt(i, slLen(s))), eq(sel(copied, i), sel(sel(old, slArr(s)), add(slOff(s), i))))))
+	if t.u.Contract != nil && t.u.Contract.Flags["append_patterns"] == "true" {
+		// the same fact indexed by the source position, with a trigger on the source array: lets a solver carry an
+		// existential witness found in the old contents over to the copy
+		t.qcount++
+		a := Term{S: fmt.Sprintf("a$a%d", t.qcount), Sort: SInt}
+		src := sel(sel(old, slArr(s)), a)
+		body := implies(and(le(slOff(s), a), lt(a, add(slOff(s), slLen(s)))), eq(sel(copied, sub(a, slOff(s))), src))
+		t.assume(Term{S: fmt.Sprintf("(forall ((%s Int)) (! %s :pattern (%s)))", a.S, body.S, src.S), Sort: SBool})
+	}
 	for j, e := range els {
 		copied = store(copied, add(slLen(s), intLit(int64(j))), e)
 	}
